@@ -13,7 +13,17 @@ class Subject:
         n = len(self.content["rows"])
         self.labels = labels if labels is not None else gen.rand_labels(rng, n)
         self.ty = self.content["ty"]
-        self.ext = gen.mk_ext(self.ca)
+        try:
+            self.ext = gen.mk_ext(self.ca)
+        except Exception as e:  # noqa: BLE001
+            # the constructor refuses storage that holds a rectangular table (or nothing) in every row: a concrete
+            # failing input for every property that starts from a column (the run cannot go on past it)
+            phys = export.export_col(self.ca)
+            a = ctx.driver.call("init", col=phys, validate=True)
+            ctx.case("subject.valid_column_refused", {"content": self.content, "layout": self.layout, "style": self.style, "phys": phys},
+                     {"err": type(e).__name__, "msg": str(e)[:200]}, None, {"ok": "a nested column with these rows"},
+                     features=(f"layout={self.layout}", f"missing={self.style}"), spec_ok=False, nontrivial=True)
+            raise
         self.phys = export.export_ext(self.ext)
         a = ctx.driver.call("abs", col=self.phys)
         self.hyp = a["model"]["hyp"] if "model" in a else a["hyp"]
